@@ -172,11 +172,12 @@ func (d *decoder) decode(v interface{}) error {
 						var err error
 						if tlv8 == "-" {
 							// unnamed slices are inline encoded
-							err = d.decode(v)
-							if isEmptyStruct(v) {
-								// step out of loop
+							if !d.hasItemFor(valueType.Elem()) {
+								// step out of loop when no item of an element is left
+								// (an element may consist of zero values only)
 								break
 							}
+							err = d.decode(v)
 						} else {
 							b, e := d.r.readBytes(tag)
 							if e == io.EOF {
@@ -237,6 +238,35 @@ func (d *decoder) decode(v interface{}) error {
 	}
 
 	return nil
+}
+
+// hasItemFor returns true if the reader still holds an item for any tagged field of struct type t.
+func (d *decoder) hasItemFor(t reflect.Type) bool {
+	if t.Kind() == reflect.Ptr {
+		t = t.Elem()
+	}
+
+	if t.Kind() != reflect.Struct {
+		return false
+	}
+
+	for i := 0; i < t.NumField(); i++ {
+		if tlv8, ok := t.Field(i).Tag.Lookup("tlv8"); ok {
+			if tlv8 == "-" {
+				if ft := t.Field(i).Type; ft.Kind() == reflect.Slice && d.hasItemFor(ft.Elem()) {
+					return true
+				}
+				continue
+			}
+
+			tag := uint8(to.Uint64(strings.Split(tlv8, ",")[0]))
+			if _, ok := d.r.m[tag]; ok {
+				return true
+			}
+		}
+	}
+
+	return false
 }
 
 func newValueOf(t reflect.Type) reflect.Value {
